@@ -12,7 +12,7 @@ CLAIMED = ["C01", "C02", "C05", "C06", "C07", "C12", "C16"]
 
 # models integrated and reviewed; a claimed property is decided by its READY models only (models still
 # under construction serve only properties that are not yet claimed)
-READY = {"RoleTransfer", "Fungible", "Vault", "MulDiv", "Gates", "Access"}
+READY = {"RoleTransfer", "Fungible", "Vault", "MulDiv", "Gates", "Access", "VaultBig"}
 
 MODELS, PROPS = {}, {}
 for fn in sorted(os.listdir(_here)):
